@@ -159,7 +159,12 @@ def check_case(ctx, case, report=None, table_hook=None, do_genall=True, brute=Tr
             for mon, msg, d in judge_outputs(B, obs, model_min, n_valid):
                 report(mon, f"{algo}/{pol.name}: {msg}", algo=algo, policy=pol.name, **d)
             if algo == "thl" and table_hook and table_hook.attached and table_hook.last is not None and obs.exc is None:
-                fails, ncells = judge_table(B, table_hook.last, best)
+                try:
+                    fails, ncells = judge_table(B, table_hook.last, best)
+                except (KeyError, TypeError, AttributeError, IndexError, ValueError) as exc:
+                    fails, ncells = [], 0
+                    table_hook.attached = False
+                    ctx.notes.append(f"hook not attached: the THL table could not be read ({type(exc).__name__}); verdict rests on L0")
                 ctx.count("mon.table_cells", ncells)
                 for mon, msg, d in fails:
                     report(mon, f"{pol.name}: {msg}", algo=algo, policy=pol.name, **d)
